@@ -223,6 +223,9 @@ class PropertyDescriptorRelation(PredicateClassRelation):
         Infer transitive relations outgoing from the source.
         """
         for nxt_relation in self.target_outgoing_relations_with_same_descriptor_type:
+            if nxt_relation.target.instance is None:
+                # collected already, its node is removed from the graph at the next sweep
+                continue
             self.__class__(
                 self.source,
                 nxt_relation.target,
